@@ -425,6 +425,182 @@ def splitPpf2Go {V : Type} (t : PairPos2 V) (prev : Nat) (pts : List Nat) : Opti
 def firstMatch2 {V : Type} (ts : List (PairPos2 V)) (g1 g2 : Nat) : Option V :=
   ts.findSome? (fun t => t.lookup g1 g2)
 
+/-! ## device / variation-index offsets of PairPos format 2 value records
+(`graph/splitting/pairpos.rs::split_off_ppf2` record loop, `copy_value_rec`)
+
+On the packing graph a subtable is `TableData { bytes, offsets }`: every offset field holds a
+placeholder (`0xFFFF`, so that `is_null()` is false) and `offsets` lists the linked objects in the
+order the fields were written.  For PairPos format 2 that is: coverage, class definition 1, class
+definition 2, then the NON-NULL device offsets of all class-2 records in row-major order, value
+record 1 before value record 2, fields in the order x_placement_device, y_placement_device,
+x_advance_device, y_advance_device.  Null device offsets have no entry. -/
+
+/-- a value record as reparsed from the subtable's bytes: the scalar fields (opaque) and, for the
+four device fields, whether the offset is non-null -/
+structure RawVR (S : Type) where
+  scalars : S
+  devs : List Bool
+  deriving DecidableEq
+
+/-- a value record whose device offsets are resolved to the ids of the objects they point to -/
+structure DevVR (S : Type) where
+  scalars : S
+  devs : List (Option Nat)
+  deriving DecidableEq
+
+/-- the device half of `copy_value_rec(target, rec, format, dev_offsets)`: for every non-null device
+offset `seen_offsets += 1; target.add_offset(dev_offsets[seen_offsets - 1].object, ..)` (`none` = index
+out of bounds), otherwise a null offset / no field.  Returns the links written and `seen_offsets`. -/
+def copyDevs (devOffsets : List Nat) : Nat → List Bool → Option (List (Option Nat) × Nat)
+  | seen, [] => some ([], seen)
+  | seen, true :: fs =>
+    match devOffsets[seen]? with
+    | none => none
+    | some o =>
+      match copyDevs devOffsets (seen + 1) fs with
+      | some (ds, n) => some (some o :: ds, n)
+      | none => none
+  | seen, false :: fs =>
+    match copyDevs devOffsets seen fs with
+    | some (ds, n) => some (none :: ds, n)
+    | none => none
+
+/-- `copy_value_rec`: the scalar fields are copied, the device offsets re-linked; returns the number
+of non-null offsets encountered in this record -/
+def copyValueRec {S : Type} (r : RawVR S) (devOffsets : List Nat) : Option (DevVR S × Nat) :=
+  match copyDevs devOffsets 0 r.devs with
+  | none => none
+  | some (ds, n) => some (⟨r.scalars, ds⟩, n)
+
+/-- Rust `&xs[n..]` (panics when `n > len`) -/
+def sliceFrom {α : Type} (xs : List α) (n : Nat) : Option (List α) :=
+  if n ≤ xs.length then some (xs.drop n) else none
+
+/-- the body of the `for class2rec in ..` loop of `split_off_ppf2`:
+```
+let rec_offset_start = first_device_idx + seen_offsets;
+let rec_offsets = &graph.objects[&subtable].offsets[rec_offset_start..];
+let rec1_seen = copy_value_rec(&mut new_ppf2, class2rec.value_record1(), value_format1, rec_offsets);
+let rec_offsets = &rec_offsets[rec1_seen..];
+seen_offsets += rec1_seen;
+seen_offsets += copy_value_rec(&mut new_ppf2, class2rec.value_record2(), value_format2, rec_offsets);
+```
+returns the copied record and the new `seen_offsets` -/
+def copyClass2Rec {S : Type} (offsets : List Nat) (firstDeviceIdx seen : Nat)
+    (c : RawVR S × RawVR S) : Option ((DevVR S × DevVR S) × Nat) :=
+  match sliceFrom offsets (firstDeviceIdx + seen) with
+  | none => none
+  | some recOffsets =>
+    match copyValueRec c.1 recOffsets with
+    | none => none
+    | some (r1, rec1Seen) =>
+      match sliceFrom recOffsets rec1Seen with
+      | none => none
+      | some recOffsets2 =>
+        match copyValueRec c.2 recOffsets2 with
+        | none => none
+        | some (r2, rec2Seen) => some ((r1, r2), seen + rec1Seen + rec2Seen)
+
+/-- the loop over the class-2 records of one class-1 record -/
+def copyCells {S : Type} (offsets : List Nat) (firstDeviceIdx : Nat) :
+    Nat → List (RawVR S × RawVR S) → Option (List (DevVR S × DevVR S) × Nat)
+  | seen, [] => some ([], seen)
+  | seen, c :: cs =>
+    match copyClass2Rec offsets firstDeviceIdx seen c with
+    | none => none
+    | some (r, seen') =>
+      match copyCells offsets firstDeviceIdx seen' cs with
+      | none => none
+      | some (rs, n) => some (r :: rs, n)
+
+/-- `.skip(start).take(class1_count).flat_map(class2_records)`: the loop over the class-1 records -/
+def copyRows {S : Type} (offsets : List Nat) (firstDeviceIdx : Nat) :
+    Nat → List (List (RawVR S × RawVR S)) → Option (List (List (DevVR S × DevVR S)) × Nat)
+  | seen, [] => some ([], seen)
+  | seen, row :: rows =>
+    match copyCells offsets firstDeviceIdx seen row with
+    | none => none
+    | some (r, seen') =>
+      match copyRows offsets firstDeviceIdx seen' rows with
+      | none => none
+      | some (rs, n) => some (r :: rs, n)
+
+/-- a PairPos format 2 subtable on the packing graph -/
+structure PairPos2G (S : Type) where
+  tbl : PairPos2 (RawVR S × RawVR S)
+  /-- `graph.objects[&subtable].offsets` (object ids) -/
+  offsets : List Nat
+
+/-- `split_off_ppf2(graph, subtable, start, end, first_device_idx)` including the record loop:
+returns the new subtable (device links resolved) and the number of non-null device offsets
+encountered (`seen_offsets`). -/
+def splitOffPpf2G {S : Type} (t : PairPos2G S) (start end_ firstDeviceIdx : Nat) :
+    Option (PairPos2 (DevVR S × DevVR S) × Nat) :=
+  match splitOffPpf2 t.tbl start end_ with
+  | none => none
+  | some p =>
+    match copyRows t.offsets firstDeviceIdx 0 p.rows with
+    | none => none
+    | some (rows, used) => some (⟨p.cov, p.classDef1, p.classDef2, rows⟩, used)
+
+/-- the split loop of `split_pair_pos_format_2`:
+```
+let mut prev_split = 0;
+let mut next_device_offset = 3; // after coverage & two class defs
+for next_split in split_points {
+    let (new_subtable, offsets_used) = split_off_ppf2(graph, subtable, prev_split, next_split, next_device_offset);
+    prev_split = next_split;
+    next_device_offset += offsets_used;
+    ..
+}
+``` -/
+def splitPpf2GGo {S : Type} (t : PairPos2G S) :
+    Nat → Nat → List Nat → Option (List (PairPos2 (DevVR S × DevVR S)))
+  | _, _, [] => some []
+  | prev, nextDev, p :: ps =>
+    match splitOffPpf2G t prev p nextDev with
+    | none => none
+    | some (a, used) =>
+      match splitPpf2GGo t p (nextDev + used) ps with
+      | none => none
+      | some rest => some (a :: rest)
+
+/-! the meaning of the unsplit graph subtable (specification side; one walk with an absolute
+counter, no slicing): the `k`-th non-null device offset in writing order links to `offsets[3 + k]` -/
+
+def countDevs (fs : List Bool) : Nat := fs.count true
+
+def resolveDevs (offsets : List Nat) : Nat → List Bool → List (Option Nat)
+  | _, [] => []
+  | k, true :: fs => offsets[k]? :: resolveDevs offsets (k + 1) fs
+  | k, false :: fs => none :: resolveDevs offsets k fs
+
+def cellDevs {S : Type} (c : RawVR S × RawVR S) : Nat := countDevs c.1.devs + countDevs c.2.devs
+
+def rowDevs {S : Type} (row : List (RawVR S × RawVR S)) : Nat := (row.map cellDevs).sum
+
+def rowsDevs {S : Type} (rows : List (List (RawVR S × RawVR S))) : Nat := (rows.map rowDevs).sum
+
+def resolveCell {S : Type} (offsets : List Nat) (k : Nat) (c : RawVR S × RawVR S) : DevVR S × DevVR S :=
+  (⟨c.1.scalars, resolveDevs offsets k c.1.devs⟩,
+   ⟨c.2.scalars, resolveDevs offsets (k + countDevs c.1.devs) c.2.devs⟩)
+
+def resolveCells {S : Type} (offsets : List Nat) : Nat → List (RawVR S × RawVR S) → List (DevVR S × DevVR S)
+  | _, [] => []
+  | k, c :: cs => resolveCell offsets k c :: resolveCells offsets (k + cellDevs c) cs
+
+def resolveRows {S : Type} (offsets : List Nat) :
+    Nat → List (List (RawVR S × RawVR S)) → List (List (DevVR S × DevVR S))
+  | _, [] => []
+  | k, row :: rows => resolveCells offsets k row :: resolveRows offsets (k + rowDevs row) rows
+
+/-- the unsplit subtable with every device offset resolved -/
+def PairPos2G.resolved {S : Type} (t : PairPos2G S) : PairPos2 (DevVR S × DevVR S) :=
+  ⟨t.tbl.cov, t.tbl.classDef1, t.tbl.classDef2, resolveRows t.offsets 3 t.tbl.rows⟩
+
+/-- every non-null device offset has its entry in `offsets` -/
+def PairPos2G.WF {S : Type} (t : PairPos2G S) : Prop := 3 + rowsDevs t.tbl.rows ≤ t.offsets.length
+
 /-! ## MarkBasePos format 1 (`graph/splitting/mark2base.rs::split_off_mark_pos`; anchors opaque) -/
 
 structure MarkBase (A : Type) where
